@@ -59,6 +59,9 @@ def compute_embedding_grad_sample(
         grad_sample.scatter_add_(
             1, index, backprops.reshape(batch_size, -1, layer.embedding_dim)
         )
+        if layer.padding_idx is not None:
+            # the padding row is constant for autograd: its gradient is zero
+            grad_sample[:, layer.padding_idx] = 0
         torch.backends.cudnn.deterministic = saved
         ret[layer.weight] = grad_sample
     return ret
